@@ -574,6 +574,19 @@ pub fn insert<S: Src, K: Skel, const SEC: u8>(s: &mut S) -> Verdict {
         _ => Section::Additional,
     };
     if SEC == 0 {
+        // the refusal is explored with error paths on; to keep that exploration to insert_rr
+        // itself the packet is decompressed first (an operation that must succeed)
+        if pp.maybe_compressed {
+            let u = Compress::uncompress(pp.packet());
+            match u {
+                Ok(u) => {
+                    pp.packet = Some(u);
+                    let rc = pp.recompute();
+                    vassert!(rc.is_ok(), "recompute after decompression succeeds");
+                }
+                Err(_) => vassert!(false, "uncompress succeeds on an accepted packet"),
+            }
+        }
         cut_errors(0);
     }
     let res = pp.insert_rr(section, rr);
